@@ -869,6 +869,15 @@ func runTeardownPanic(c driver.Case) driver.Result {
 		res.Verdict, res.Key, res.Dirty = driver.Inconclusive, "call-did-not-return", true
 		return res
 	}
+	// a Wait that arrives only now - the subscription is closed, its (panicking) release is over - returns too
+	if sp := subp.Load(); sp != nil && (*sp).IsClosed() {
+		if st2, dump2, _ := quiesce.Call(func() { (*sp).Wait() }, 10*time.Second); st2 == quiesce.Hung {
+			res.Verdict, res.Key, res.Dirty = driver.Violated, "C06/"+e.Family+"/late-wait-hangs-when-a-teardown-panicked", true
+			res.Msg = what + ": the subscription is closed and its release has run (a teardown panicked); a Wait() called afterwards never returns; all goroutines blocked"
+			res.Witness = dump2
+			return res
+		}
+	}
 	if variant == "collect" {
 		mu.Lock()
 		defer mu.Unlock()
